@@ -48,7 +48,8 @@ GROUPS = {
    [('filter_meta_filters_every_valid_dictionary', 'filter_meta_eq'), ('filter_meta_is_model', 'filter_meta_model'),
     ('clear_slice_meta_is_model', 'clear_slice_meta_model'), ('get_keys_is_model', 'get_keys_model')]),
  'insertall': ('dcmmeta.py: _insert as a whole',
-   [('insert_leaves_other_unchanged', 'insert_whole_eq'), ('insert_on_model_extension', 'insert_whole_on_ext')]),
+   [('insert_leaves_other_unchanged', 'insert_whole_eq'), ('insert_on_model_extension', 'insert_whole_on_ext'),
+    ('insert_treats_keys_independently', 'insert_try_per_key')]),
  'filter': ('dcmstack.py: make_key_regex_filter and its inner function',
    [('key_regex_filter_is_model', 'key_regex_filter_eq')]),
  'orient': ('dcmstack.py: the voxel_order checks of reorder_voxels',
@@ -63,7 +64,7 @@ GROUPS = {
    [('file_idx_is_model', 'file_idx_eq'), ('file_idx_volume_is_model', 'file_idx_volume_eq'),
     ('get_data_trim_is_model', 'get_data_trim_eq')]),
 }
-EXTRA = {'content': 'variable [DecidableEq κ]\n', 'insertall': 'variable [DecidableEq κ]\n', 'subset': 'variable [DecidableEq α]\n', 'filter': 'variable {ρ : Type}\n', 'group': 'variable {E V : Type} [DecidableEq E]\n'}
+EXTRA = {'content': 'variable [DecidableEq κ]\n', 'insertall': 'variable [DecidableEq κ] [DecidableEq α]\n', 'subset': 'variable [DecidableEq α]\n', 'filter': 'variable {ρ : Type}\n', 'group': 'variable {E V : Type} [DecidableEq E]\n'}
 OPENS = {'extract': 'Src Ex', 'cli': 'Src Cli', 'group': 'Src Grp', 'orient': 'Src Orient', 'phoenix': 'Src Phx', 'header': 'Src Stk', 'stackadd': 'Src Stk', 'stack': 'Src Stk', 'data': 'Src Stk Wrap', 'wrapsplit': 'Src Wrap', 'wrapmerge': 'Src Wrap'}
 for grp, (srcfile, pairs) in GROUPS.items():
     mod = 'Code_' + grp
